@@ -44,6 +44,8 @@ MIN_COUNTERS = {
     "element_keys_in_positions": {"quick": 75, "thorough": 75},
     "brkrec_programs": {"quick": 600, "thorough": 600},
     "random_programs": {"quick": 3000, "thorough": 30000},
+    "parameter_programs": {"quick": 1000, "thorough": 1000},
+    "noop_programs": {"quick": 5000, "thorough": 5000},
 }
 UNIT_TIMEOUT = 900
 
@@ -149,6 +151,9 @@ def units(tier, seed):
             u.append({"kind": "enum", "part": p, "of": N_ENUM_UNITS})
     for p in range(4):
         u.append({"kind": "names", "part": p, "of": 4})
+    u.append({"kind": "params"})
+    for p in range(4):
+        u.append({"kind": "noops", "part": p, "of": 4})
     return u
 
 
@@ -510,6 +515,56 @@ def run_unit(unit):
                             [F.FnDef("f", ["2", name], [one])], [F.For(None, [F.FnCall(name)])]):
                     R.check_ast(ast, drops="all", origin="name with code-page character")
                     R.count("name_programs")
+
+    elif kind == "params":
+        # every spelling the header of a function, lambda or loop can carry between `:`/`|`:
+        # counts with leading zeros, names with digits, `*`, empty, decimals (read as names)
+        sp = ["0", "00", "01", "007", "010", "1", "2", "9", "10", "12", "99", "100", "1a", "a1", "a", "ab", "_",
+              "a_", "_1", "*", "", "1.", ".5", "1.5", "°", "a.b", "**", "*a", "a*", "1*", "²", "0a", "00a", "0_"]
+        one = F.Lit("num", "1")
+        for a in sp:
+            for ast in ([F.FnDef("f", [a], [F.Elem("+")])], [F.FnDef("f", ["2", a], [one])],
+                        [F.FnDef("f", [a, "b"], [one])], [F.FnDef("f", [a, a], [F.Elem("+")])],
+                        [F.FnDef("f", [a, "*", a], [])], [F.For(a, [F.Elem("+")])],
+                        [F.For(None, [F.FnDef("f", [a], [F.Elem("+")])])],
+                        [F.Lam(None, [F.If([[one], [F.FnDef("f", [a], [one])]])])]):
+                R.check_ast(ast, drops="all", origin="parameter spelling")
+                R.count("parameter_programs")
+            if a.isascii() and a.isdecimal():
+                # a lambda's arity must be an integer (anything else is a documented parse error)
+                R.check_ast([F.Lam(a, [F.Elem("+")])], drops="all", origin="lambda arity spelling")
+                R.check_ast([F.For(None, [F.Lam(a, [F.Elem("+")]), F.Elem("M")])], drops="all", origin="lambda arity spelling")
+                R.count("parameter_programs", 2)
+            for b in sp:
+                R.check_ast([F.FnDef("f", [a, b], [F.Elem("+")])], drops="closed", origin="parameter spelling pair")
+                R.count("parameter_programs")
+
+    elif kind == "noops":
+        # GENERAL tokens that are not elements do nothing: line breaks, code-page characters without
+        # an element, digraph heads with nothing to pair with, unassigned digraphs. A body made only
+        # of them is not empty for the parser, so each goes alone into every position.
+        from vyxal import encoding
+
+        syntax = set(F.OPENERS + F.CLOSERS + "| Xx") | set(F.MODIFIERS)
+        known = set(table.all_keys)
+        singles = [ch for ch in encoding.codepage
+                   if ch not in known and ch not in syntax and F.model_tokenise(ch) == [(F.GENERAL, ch)]]
+        digraphs = [h + ch for h in F.DIGRAPH_HEADS for ch in encoding.codepage
+                    if ch != "|" and h + ch not in known]
+        ctxs = _contexts(F, [])
+        few = [c for c in ctxs if c[0] in ("top", "if-true", "if-else", "elif-cond", "elif-body", "for-body",
+                                           "while-cond", "while-body", "lambda", "list-item", "function-body",
+                                           "mod-v", "mod-₌-B")]
+        todo = [(g, ctxs) for g in singles] + [(g, few) for g in digraphs]
+        for g, cs in todo[unit["part"]::unit["of"]]:
+            R.count("noop_tokens")
+            for name, fn in cs:
+                R.check_ast(fn(F.Elem(g)), drops="all", origin=f"no-op token in {name}")
+                R.check_ast(fn(F.Elem(g)) + [F.Elem(g)], drops="closed", origin=f"no-op token in {name}, then last")
+                R.count("noop_programs")
+        if unit["part"] == 0:
+            R.c["noop_singles"] = len(singles)
+            R.c["noop_digraphs"] = len(digraphs)
 
     elif kind == "positions":
         thorough = unit.get("tier") == "thorough"
